@@ -158,3 +158,61 @@ def h_fixpoint(ctx):
             return {'what': 'second round trip differs', 'bit': k}
     ctx.witness('fixpoint')
     return None
+
+
+def h_compressed_unaltered(ctx):
+    """
+    Compressed data: n subsets of one numeric field, every value an unconstrained solver integer (inside, on and beyond the
+    field's range) or missing.  Either the encoder refuses, or every value reads back exactly - the sole exception being a
+    value that coincides with the all-ones pattern of its field (missing).  "Never silently alters data."
+    """
+    ids = REFUSAL_TEMPLATES[ctx.params['template']]
+    n_subsets = ctx.params.get('n_subsets', 2)
+    shape = fm94.reference_decode(_PlainCtx(), ids, _ZeroBits())
+    items = shape.outs[0].items
+    target = [k for k, it in enumerate(items) if it.enc is not None and
+              not (len(items) > 1 and it.eid in (31000, 31001, 31002, 31031))][0]
+    n, r, den = items[target].enc
+    span = 1 << n
+    values_all, nums = [], []
+    for s in range(n_subsets):
+        vals = [it.value for it in items]
+        if ctx.params.get('with_missing') and ctx.choice('missing%d' % s, 2):
+            vals[target] = None
+            nums.append(None)
+        else:
+            num = ctx.int('num%d' % s, r - 3, r + 2 * span + 3)
+            vals[target] = sc.scaled(num, den) if den != 1 else num
+            nums.append(num)
+        values_all.append(vals)
+    ctx.note('values', [v[target] for v in values_all])
+    try:
+        writer, td, _ = pbk.encode_template_data(ctx, ids, values_all, n_subsets=n_subsets, compressed=True)
+    except Exception:
+        # a value equal to the all-ones pattern (FM-94: missing) may be refused next to other values: only values strictly
+        # inside the representable range must be accepted
+        if all(x is None or (bool(0 <= x - r) and bool(x - r < (span - 1 if n > 1 else span))) for x in nums):
+            return {'what': 'compressed encoding refused values that all fit the field', 'nums': nums, 'n': n, 'ref': r}
+        ctx.witness('refused')
+        return None
+    try:
+        back = fm94.reference_decode(ctx, ids, ctx.source_of_written('W', writer), n_subsets=n_subsets, compressed=True,
+                                     max_factor=64, max_diff_width=64)
+    except fm94.RefMalformed as e:
+        return {'what': 'encoder output is not a well-formed compressed data section', 'why': str(e), 'nums': nums}
+    for s in range(n_subsets):
+        got = back.outs[s].items[target].value
+        x = nums[s]
+        if x is None:
+            if got is not None:
+                return {'what': 'missing did not read back as missing', 'subset': s, 'got': got}
+            continue
+        if n > 1 and bool(x - r == span - 1):
+            if got is not None and not fm94.same(got, values_all[s][target]):
+                return {'what': 'value altered by the compressed round trip', 'subset': s, 'num': x, 'got': got}
+            continue       # coincides with the all-ones pattern: missing (or, carried exactly through a wider increment)
+        if not fm94.same(got, values_all[s][target]):
+            return {'what': 'value silently altered by the compressed round trip', 'subset': s, 'num': x, 'got': got, 'n': n, 'ref': r,
+                    'nums': nums}
+    ctx.witness('unaltered')
+    return None
